@@ -4,3 +4,6 @@ import BufrProps.C04
 #print axioms Bufr.C04.C04_listed_column_spec
 #print axioms Bufr.C04.C04_element
 #print axioms Bufr.C04.C04_minNbinc_pos
+#print axioms Bufr.C04.C04_character_column_listed
+#print axioms Bufr.C04.C04_character_column_const
+#print axioms Bufr.C04.C04_af_column_listed
